@@ -961,8 +961,36 @@ def _ops_strategy(backend):
     return st.lists(st.one_of(*ops), min_size=1, max_size=30)
 
 
+def directed_sequences(backend):
+    """Directory/file conflicts crossed with how the existing ref is stored, how the new name is reached and which
+    operation creates it: [ops]."""
+    out = []
+    pairs = [(b"refs/heads/a", b"refs/heads/a/b"), (b"refs/heads/a/b", b"refs/heads/a")]
+    storages = ["loose"] + (["packed", "loose+packed"] if BACKENDS[backend].has_pack else [])
+    for existing, new in pairs:
+        for storage in storages:
+            pre = [("setitem", 0, existing, 0)]
+            if storage != "loose":
+                pre.append(("pack", 0, 1))
+            if storage == "loose+packed":
+                pre.append(("setitem", 0, existing, 1))
+            for via in (None, b"HEAD", b"refs/heads/sym"):
+                link = [("symref", 0, via, new)] if via else []
+                target = via or new
+                for op in (("add", 1, target, 2), ("setitem", 1, target, 2), ("set", 1, target, "none", 2), ("set", 1, target, "zero", 2)):
+                    out.append(pre + link + [op, ("reopen", 0), ("add", 0, new, 3), ("del", 0, existing), ("add", 0, target, 3)])
+    return out
+
+
 def _part_machine(ctx, item):
     backend, n = item
+    if ctx.shard % 16 == 0:
+        for ops in directed_sequences(backend):
+            ctx.label(f"{backend}:directed")
+            try:
+                execute_ops(ctx, backend, ops)
+            except Violation as v:  # raise_mode is on inside run_hypothesis only; be safe
+                ctx.record_violation(v.bucket, v.message, v.check, v.case)
     run_hypothesis(ctx, _ops_strategy(backend), lambda c, ops: execute_ops(c, backend, ops), max_examples=n, shrink=True)
 
 
